@@ -553,6 +553,7 @@ func checkBulkOps(p *Program, r *Report, prop string) {
 	}
 	r.Floor("R02.2", "Contiguous implementations", nC, 9)
 	checkContiguousIgnoresUnitAxes(p, r)
+	checkContiguousCoversAllAxes(p, r)
 
 	// ---- R02.2b: the fields the predicate reads are maintained with consistent units
 	{
@@ -2180,4 +2181,174 @@ func checkIndexWalker(p *Program, r *Report, step *ssa.Function, inc ssa.CallIns
 		}
 	}
 	return n
+}
+
+// checkContiguousCoversAllAxes (R02.13): the contiguity predicate looks at every axis. The loop in which Contiguous()
+// tests Step[i] runs i over the whole range of axes — down from len−1 while i >= 0, up from 0 while i < len, or a
+// range loop — or the axis it leaves out is tested by a conditional of its own. A scan that stops short of the
+// outermost axis reports a view stepped along that axis (every stepped series) as contiguous.
+func checkContiguousCoversAllAxes(p *Program, r *Report) {
+	r.Rule("R02.13", "the contiguity predicate looks at every axis: the loop of Contiguous() whose conditionals read Step[i] runs i over all axes (from len−1 down while i >= 0, from 0 up while i < len, or a range loop), or the axis it leaves out has a Step test of its own — a scan that stops before the outermost axis reports every view stepped along it as contiguous, and each fast path then writes one consecutive run instead of the addressed elements")
+	n := 0
+	for _, fn := range p.PkgFuncs("data") {
+		if fn.Name() != "Contiguous" || fn.Signature.Recv() == nil || !isCommonStruct(fn.Signature.Recv().Type()) {
+			continue
+		}
+		key := FuncKey(fn) + ":all-axes"
+		loops := findLoops(fn)
+		stepIndex := func(iff *ssa.If) ssa.Value {
+			var idx ssa.Value
+			dependsOn(iff.Cond, func(x ssa.Value) bool {
+				if ld, ok := x.(*ssa.UnOp); ok && ld.Op == token.MUL {
+					if ia, ok := ld.X.(*ssa.IndexAddr); ok {
+						for _, o := range origins(ia.X) {
+							if o == nil {
+								continue
+							}
+							if nm, _, ok := loadedField(o); ok && nm == "Step" {
+								idx = ia.Index
+							}
+						}
+					}
+				}
+				return false
+			}, map[ssa.Value]bool{})
+			return idx
+		}
+		isLen := func(v ssa.Value) bool {
+			c, ok := origin1(v).(*ssa.Call)
+			if !ok {
+				return false
+			}
+			b, ok := c.Common().Value.(*ssa.Builtin)
+			if !ok || b.Name() != "len" {
+				return false
+			}
+			nm, _, okf := loadedField(origin1(c.Common().Args[0]))
+			return okf && (nm == "Dims" || nm == "Step" || nm == "Offset" || nm == "OriginalDims" || nm == "OffsetStep")
+		}
+		var inLoop *Loop
+		var inLoopIdx ssa.Value
+		constAxes := map[int64]bool{}
+		eachInstr(fn, func(b *ssa.BasicBlock, _ int, ins ssa.Instruction) {
+			iff, ok := ins.(*ssa.If)
+			if !ok {
+				return
+			}
+			idx := stepIndex(iff)
+			if idx == nil {
+				return
+			}
+			if c, ok := constInt(origin1OrSelf(idx)); ok {
+				constAxes[c] = true
+				return
+			}
+			if l := innermostLoop(loops, b); l != nil && inLoop == nil {
+				inLoop, inLoopIdx = l, idx
+			}
+		})
+		if inLoop == nil {
+			r.Unsupported("R02.13", FuncKey(fn)+" tests the strides outside any loop: the axes covered are not worked out for this form")
+			continue
+		}
+		n++
+		// the loop's counter and the range it runs over
+		h := inLoop.Header
+		iff, _ := h.Instrs[len(h.Instrs)-1].(*ssa.If)
+		var cond *ssa.BinOp
+		if iff != nil {
+			cond, _ = iff.Cond.(*ssa.BinOp)
+		}
+		verdict, missing := "", ""
+		if cond != nil && len(h.Succs) == 2 && inLoop.Blocks[h.Succs[0]] && !inLoop.Blocks[h.Succs[1]] {
+			var phi *ssa.Phi
+			var tested ssa.Value = cond.X
+			if q, ok := cond.X.(*ssa.Phi); ok {
+				phi = q
+			} else if bo, ok := cond.X.(*ssa.BinOp); ok && bo.Op == token.ADD {
+				// range loop: t = phi + 1; t < len
+				if q, ok := bo.X.(*ssa.Phi); ok {
+					if c, ok := constInt(bo.Y); ok && c == 1 {
+						phi = q
+					}
+				}
+			}
+			if phi != nil && phi.Block() == h {
+				var init, next ssa.Value
+				for i, pr := range h.Preds {
+					if inLoop.Blocks[pr] {
+						next = phi.Edges[i]
+					} else {
+						init = phi.Edges[i]
+					}
+				}
+				stepOf := func(v ssa.Value) int64 {
+					bo, ok := v.(*ssa.BinOp)
+					if !ok || bo.X != ssa.Value(phi) && !(tested != ssa.Value(phi) && v == tested) {
+						return 0
+					}
+					c, ok := constInt(bo.Y)
+					if !ok {
+						return 0
+					}
+					if bo.Op == token.SUB {
+						return -c
+					}
+					if bo.Op == token.ADD {
+						return c
+					}
+					return 0
+				}
+				bound, isConstBound := constInt(cond.Y)
+				switch st := stepOf(next); {
+				case st == -1 && tested == ssa.Value(phi) && sameValue(inLoopIdx, phi):
+					// from len−1 down
+					okInit := false
+					if bo, ok := origin1OrSelf(init).(*ssa.BinOp); ok && bo.Op == token.SUB && isLen(bo.X) {
+						if c, ok := constInt(bo.Y); ok && c == 1 {
+							okInit = true
+						}
+					}
+					switch {
+					case !okInit:
+						verdict = "unknown"
+					case isConstBound && (cond.Op == token.GEQ && bound == 0 || cond.Op == token.GTR && bound == -1):
+						verdict = "all"
+					case isConstBound && (cond.Op == token.GTR && bound == 0 || cond.Op == token.GEQ && bound == 1):
+						verdict, missing = "short", "0"
+					default:
+						verdict = "unknown"
+					}
+				case st == 1:
+					// from 0 (or −1 for the range idiom) up while < len
+					i0, okc := constInt(origin1OrSelf(init))
+					full := cond.Op == token.LSS && isLen(cond.Y)
+					switch {
+					case tested == ssa.Value(phi) && okc && i0 == 0 && full && sameValue(inLoopIdx, phi):
+						verdict = "all"
+					case tested != ssa.Value(phi) && okc && i0 == -1 && full && sameValue(inLoopIdx, tested):
+						verdict = "all"
+					case tested == ssa.Value(phi) && okc && i0 == 1 && full:
+						verdict, missing = "short", "0"
+					default:
+						verdict = "unknown"
+					}
+				default:
+					verdict = "unknown"
+				}
+			}
+		}
+		switch {
+		case verdict == "all":
+			r.OK("R02.13", FuncKey(fn)+": the stride tests run over every axis")
+		case verdict == "short" && missing == "0" && constAxes[0]:
+			r.OK("R02.13", FuncKey(fn)+": the stride tests run over the inner axes, and axis 0 has a Step test of its own")
+		case verdict == "short":
+			r.Fail("R02.13", key, p.Pos(fn.Pos()), "the loop in which Contiguous() tests the strides never reaches axis "+missing+" and no other conditional reads Step["+missing+"]: a view stepped along that axis (every stepped 1-D series, every `rows[::2]`) is reported contiguous, so Apply, ApplySlice, CopyFrom and Unroll take the block path and touch one consecutive run of storage instead of the addressed elements")
+		default:
+			n--
+			r.Unsupported("R02.13", FuncKey(fn)+": the range of the loop that tests the strides is not of a recognised form (down from len−1 while >= 0, up from 0 while < len, range)")
+		}
+	}
+	r.Floor("R02.13", "Contiguous implementations", n, 9)
 }
